@@ -17,6 +17,7 @@ import (
 	"github.com/cloudwego/dynamicgo/conv"
 	"github.com/cloudwego/dynamicgo/conv/t2j"
 	"github.com/cloudwego/dynamicgo/thrift"
+	"github.com/cloudwego/dynamicgo/thrift/base"
 	"github.com/cloudwego/dynamicgo/thrift/generic"
 )
 
@@ -51,12 +52,63 @@ func emit612(desc *thrift.TypeDescriptor, dfs []string, tb []byte, opts int) {
 		ByteAsUint8:          opts&o3ByteAsUint8 != 0,
 		NoBase64Binary:       opts&o3NoBase64Binary != 0,
 		DisallowUnknownField: opts&o3DisallowUnknown != 0,
+		EnableThriftBase:     opts&o3ThriftBase != 0,
 	}
-	ec, _ := c06T2J(desc, tb, co)
+	ec, _ := c06T2J(desc, tb, co, opts&o3BaseInCtx != 0)
 	fields := []string{fi(opts)}
 	fields = append(fields, dfs...)
 	fields = append(fields, fx(tb), fi(ec))
 	out.emit(612, fields...)
+}
+
+// a root struct with one extra field of type base.BaseResp (the response base conv/t2j extracts into the context under
+// EnableThriftBase), parsed with thrift.Options.EnableThriftBase; nil when the random shape has no free id for it
+func c06BaseMsg(r *rng) (m *tmsg, dfs []string) {
+	g := &gen03{tgen: newTgen(r.fork()), extra: map[*Fld]*fx03{}}
+	g.maxDepth = 2 + g.r.intn(2)
+	g.allowReq = true
+	root := g.genStruct(0)
+	g.base = &Ty{K: thrift.STRUCT, Name: "BaseResp", Fields: []*Fld{
+		{ID: 1, Name: "StatusMessage", T: &Ty{K: thrift.STRING}},
+		{ID: 2, Name: "StatusCode", T: &Ty{K: thrift.I32}},
+		{ID: 3, Name: "Extra", T: &Ty{K: thrift.MAP, Key: &Ty{K: thrift.STRING}, Elem: &Ty{K: thrift.STRING}}, Req: 2}}}
+	g.structs = append(g.structs, g.base)
+	for _, f := range root.Fields {
+		if f.ID == 255 {
+			return nil, nil
+		}
+	}
+	baseFld := &Fld{ID: 255, Name: "BaseResp", T: g.base}
+	root.Fields = append(root.Fields, baseFld)
+	g.decorate(root)
+	for _, e := range g.extra {
+		e.jsconv = false
+	}
+	g.extra[baseFld].respBase = true
+	for _, f := range g.base.Fields {
+		g.extra[f].alias = f.Name
+	}
+	idl, inc := g.idl03(root, true)
+	desc, err := parse03(idl, inc, thrift.Options{EnableThriftBase: true})
+	if err != nil {
+		die("C06b: base IDL does not parse: %v\n%s", err, idl)
+	}
+	g.descFields(root, &dfs)
+	val := g.genValue03(root, 0, &opt03{unknown: g.r.chance(30)})
+	// the base field is always present, with a message and a few Extra pairs
+	hasBase := false
+	for _, id := range val.FIDs {
+		if id == 255 {
+			hasBase = true
+		}
+	}
+	if !hasBase {
+		val.FIDs = append(val.FIDs, 255)
+		val.Fields = append(val.Fields, g.genValue03(g.base, 1, &opt03{}))
+	}
+	m = &tmsg{root: root, desc: desc, val: val}
+	m.buf = val.encodePos(nil, &m.pos)
+	return m, dfs
 }
 
 func genC06b(r *rng, n int) {
@@ -110,12 +162,25 @@ func genC06b(r *rng, n int) {
 			made++
 		}
 	}
+	// ---- 612 with thrift base extraction: malformed bytes INSIDE the base.BaseResp field (readResponseBase)
+	for made := 0; made < n/6; {
+		m, dfs := c06BaseMsg(r.fork())
+		if m == nil || len(m.buf) > 400 {
+			continue
+		}
+		rr := r.fork()
+		opts := walkOpts(rr)&(o3Int642String|o3ByteAsUint8|o3NoBase64Binary|o3DisallowUnknown) | o3ThriftBase | o3BaseInCtx
+		for _, in := range thriftVariants(rr, 0, m, 40, 4) {
+			emit612(m.desc, dfs, in.b, opts)
+			made++
+		}
+	}
 	// ---- 613: p2j
 	genC06p2j(r.fork(), n/3)
 }
 
 // error class of one t2j conversion: 0 nil, 1 error, 3 panic, 4 no answer within the watchdog
-func c06T2J(desc *thrift.TypeDescriptor, tb []byte, co conv.Options) (int, []byte) {
+func c06T2J(desc *thrift.TypeDescriptor, tb []byte, co conv.Options, baseInCtx bool) (int, []byte) {
 	type res struct {
 		ec  int
 		out []byte
@@ -127,7 +192,11 @@ func c06T2J(desc *thrift.TypeDescriptor, tb []byte, co conv.Options) (int, []byt
 		src := append([]byte(nil), tb...)
 		ok, _ := noPanic(func() {
 			cv := t2j.NewBinaryConv(co)
-			outb, err = cv.Do(context.Background(), desc, src)
+			ctx := context.Background()
+			if baseInCtx {
+				ctx = context.WithValue(ctx, conv.CtxKeyThriftRespBase, base.NewBaseResp())
+			}
+			outb, err = cv.Do(ctx, desc, src)
 		})
 		switch {
 		case !ok:
